@@ -767,7 +767,7 @@ func TestCheckC27(t *testing.T) {
 	s.eachLarge("c27-large", oneShot)
 
 	// histories: sequences of group changes, each followed by its rebalances
-	nScen := r.Pick(3000, 300000)
+	nScen := r.Pick(3000, 100000)
 	vh.Parallel(nScen, runtime.NumCPU(), func(i int) {
 		rng := r.Rand("c27-scenario", i)
 		var start *input
